@@ -647,7 +647,11 @@ def thread_results(body, types=None, max_clones=400):
             break
         changed_any = True
     if cloned_defs:
-        split_locals(m, cloned_defs)
+        for _ in range(6):
+            before = len(m["locals"])
+            split_locals(m, cloned_defs)
+            if len(m["locals"]) == before:
+                break
     return changed_any
 
 
@@ -770,8 +774,8 @@ def split_locals(m, candidates):
         if len(defs) < 2 or len({bi for bi, _ in defs}) != len(defs):
             continue
         defblocks = [bi for bi, _ in defs]
+        # uses reached by exactly one definition
         owner = {}
-        ok = True
         for bi, ev in events.items():
             for (k, pos) in ev:
                 if k != "use":
@@ -779,7 +783,6 @@ def split_locals(m, candidates):
                 own = []
                 for (db, dpos) in defs:
                     if (db == bi and dpos < pos) or (db != bi and db in dom.get(bi, ())):
-                        # no other definition may lie between this definition and the use
                         clean = True
                         for ob in defblocks:
                             if ob == db:
@@ -787,45 +790,61 @@ def split_locals(m, candidates):
                             if ob in reach(db) and (bi in reach(ob) or ob == bi):
                                 clean = False
                         if db != bi and bi in defblocks:
-                            # the use block redefines l: the use must come before that definition
                             dpos2 = [p2 for (b2, p2) in defs if b2 == bi][0]
                             if dpos2 < pos:
                                 clean = False
                         if clean:
                             own.append(db)
-                if len(own) != 1:
-                    ok = False
-                    break
-                owner[(bi, pos)] = own[0]
-            if not ok:
-                break
-        if not ok:
-            continue
-        # rename all but the first definition
-        for (db, dpos) in defs[1:]:
+                    elif db in reach(0) and (bi in reach(db) or db == bi):
+                        # a definition that may reach this use without dominating it: the use is shared
+                        own.append(None)
+                if len(own) == 1 and own[0] is not None:
+                    owner[(bi, pos)] = own[0]
+        for (db, dpos) in defs:
+            mine = [(bi, pos) for (bi, pos), o in owner.items() if o == db]
+            if not mine:
+                continue
             nl = len(m["locals"])
             m["locals"].append(dict(m["locals"][l]))
-            for bi, ev in events.items():
-                b = blocks[bi]
-                uses_here = [pos for (k, pos) in ev if k == "use" and owner.get((bi, pos)) == db]
-                for si, s in enumerate(b["stmts"]):
-                    if si in uses_here:
-                        tmp = {"stmts": [s], "term": {"k": "return"}}
-                        keep_def = s["place"]["local"] == l and not s["place"]["proj"]
-                        _rename_local([tmp], l, nl)
-                        if keep_def and not (bi == db and si == dpos):
-                            s["place"]["local"] = l
-                    if bi == db and si == dpos:
-                        s["place"]["local"] = nl
-                if 10 ** 6 in uses_here:
-                    t = b["term"]
+            # the definition now writes the fresh local; the old name keeps receiving the value for shared uses
+            blk = blocks[db]
+            copy_stmt = {"k": "assign", "place": {"local": l, "proj": []}, "rv": {"k": "use", "op": {"k": "copy", "place": {"local": nl, "proj": []}}}, "l": 0, "x": False}
+            if dpos == 10 ** 6 + 1:
+                tgt = blk["term"].get("target")
+                if tgt is None or len(preds[tgt]) != 1:
+                    m["locals"].pop()
+                    continue
+                blk["term"]["dest"]["local"] = nl
+                blocks[tgt]["stmts"].insert(0, copy_stmt)
+                shift_block, shift_from = tgt, 0
+            else:
+                blk["stmts"][dpos]["place"]["local"] = nl
+                blk["stmts"].insert(dpos + 1, copy_stmt)
+                shift_block, shift_from = db, dpos + 1
+            for (bi, pos) in mine:
+                b2 = blocks[bi]
+                if pos == 10 ** 6:
+                    t = b2["term"]
                     dsave = copy.deepcopy(t.get("dest")) if t.get("dest") is not None else None
-                    tmp = {"stmts": [], "term": t}
-                    _rename_local([tmp], l, nl)
-                    if dsave is not None and dsave["local"] == l and not dsave["proj"] and not (bi == db and dpos == 10 ** 6 + 1):
+                    _rename_local([{"stmts": [], "term": t}], l, nl)
+                    if dsave is not None and dsave["local"] == l and not dsave["proj"]:
                         t["dest"] = dsave
-                if bi == db and dpos == 10 ** 6 + 1:
-                    b["term"]["dest"]["local"] = nl
+                else:
+                    si = pos + (1 if (bi == shift_block and pos >= shift_from) else 0)
+                    st = b2["stmts"][si]
+                    keep_def = st["place"]["local"] == l and not st["place"]["proj"]
+                    _rename_local([{"stmts": [st], "term": {"k": "return"}}], l, nl)
+                    if keep_def:
+                        st["place"]["local"] = l
+            # positions in this block moved by one: recompute the event table for the next definition
+            events = {}
+            for bi in live:
+                ev = _uses_in_block(blocks[bi], l)
+                if ev:
+                    events[bi] = ev
+            defs2 = [(bi, pos) for bi, ev in events.items() for (k, pos) in ev if k == "def"]
+            # after the first split the bookkeeping of positions is stale: handle one definition per call
+            break
 
 
 def _relevant_locals(blocks, i, preds):
